@@ -6,6 +6,8 @@ import (
 	"go/constant"
 	"go/token"
 	"go/types"
+	"path/filepath"
+	"sort"
 	"strings"
 )
 
@@ -62,6 +64,9 @@ func checkC22(c *Check) {
 	tl2AliasMarkerPrinted(c, a.r)
 	printerOrderFollowsParserRule(c, a.r, a.pkg, tl2Family, "tl2-printer/field-order-follows-parser")
 	c.Floor("tl2-printer/field-order-follows-parser", 5)
+	tl2SingleVariantUnionKeepsBar(c, a)
+	nodePrintedThroughItsOwnPrinter(c, a, tl2Family, "TL2File", "Print", "tl2-printer/node-printed-through-its-own-printer")
+	c.Floor("tl2-printer/node-printed-through-its-own-printer", 8)
 }
 
 // tl2ConsultedCommentsArePrinted: every comment field of a TL2 AST node that a function reachable from TL2File.Print reads
@@ -354,4 +359,354 @@ func tl2AliasMarkerPrinted(c *Check, r *repoCtx) {
 		}
 	}
 	c.Floor("tl2-printer/alias-marker-precedes-alias-target", 1)
+}
+
+// nodePrintedThroughItsOwnPrinter: a node type that has its own printer is printed by it. In every printer of the
+// family reachable from the root, a call of another node's printer (or a strings.Builder write) whose operand is reached
+// *through* a value of a node type N that has its own printer — `x.Fields[0].Type.Print(sb)` where `x.Fields[0]` is an
+// N — prints a part of that N and skips the rest (name, optional marker, …), unless the function is N's own printer.
+// One obligation per (function, N): all such operands in the function.
+func nodePrintedThroughItsOwnPrinter(c *Check, a *astCoverage, fam *astFamily, rootRecv, rootName, rule string) {
+	root := a.p.funcByName("github.com/VKCOM/tl/internal/tlast", rootRecv, rootName)
+	reach := map[string]bool{}
+	for fn := range a.p.reachable(root) {
+		top := fn
+		for top.Parent() != nil {
+			top = top.Parent()
+		}
+		if obj, _ := top.Object().(*types.Func); obj != nil {
+			reach[obj.FullName()] = true
+		}
+	}
+	// node types with their own printer
+	own := map[string]string{}
+	for _, name := range sortedKeys(a.r.funcs) {
+		fi := a.r.funcs[name]
+		if fi.Decl.Recv == nil || !reach[fi.Obj.FullName()] {
+			continue
+		}
+		file := filepath.Base(a.r.co.Fset.Position(fi.Decl.Pos()).Filename)
+		if !fam.printerFiles[file] || !(fam.isPrinter(fi.Obj) || fi.Obj.Name() == "String") {
+			continue
+		}
+		if s := namedStructName(fi.Obj.Type().(*types.Signature).Recv().Type()); fam.structs[s] {
+			if _, ok := own[s]; !ok {
+				own[s] = fi.Name()
+			}
+		}
+	}
+	c.Set("node_types_with_own_printer", len(own))
+	for _, name := range sortedKeys(a.r.funcs) {
+		fi := a.r.funcs[name]
+		if fi.Decl.Body == nil || !reach[fi.Obj.FullName()] {
+			continue
+		}
+		file := filepath.Base(a.r.co.Fset.Position(fi.Decl.Pos()).Filename)
+		if !fam.printerFiles[file] {
+			continue
+		}
+		info := fi.Pkg.TypesInfo
+		self := ""
+		var selfObj types.Object
+		if fi.Decl.Recv != nil {
+			self = namedStructName(fi.Obj.Type().(*types.Signature).Recv().Type())
+			if len(fi.Decl.Recv.List) == 1 && len(fi.Decl.Recv.List[0].Names) == 1 {
+				selfObj = info.Defs[fi.Decl.Recv.List[0].Names[0]]
+			}
+		}
+		// through(e): node types with own printer that e passes through (proper prefixes of the operand path)
+		var through func(e ast.Expr, top bool, out map[string]string)
+		through = func(e ast.Expr, top bool, out map[string]string) {
+			var inner ast.Expr
+			switch x := e.(type) {
+			case *ast.ParenExpr:
+				through(x.X, top, out)
+				return
+			case *ast.StarExpr:
+				through(x.X, top, out)
+				return
+			case *ast.UnaryExpr:
+				through(x.X, top, out)
+				return
+			case *ast.SelectorExpr:
+				if sl, ok := info.Selections[x]; !ok || sl.Kind() != types.FieldVal {
+					return
+				}
+				inner = x.X
+			case *ast.IndexExpr:
+				inner = x.X
+			case *ast.Ident:
+			default:
+				return
+			}
+			if !top {
+				if s := namedStructName(info.TypeOf(e)); s != "" && own[s] != "" && s != self {
+					if id, ok := e.(*ast.Ident); !(ok && selfObj != nil && info.Uses[id] == selfObj) {
+						out[s] = types.ExprString(e)
+					}
+				}
+			}
+			if inner != nil {
+				through(inner, false, out)
+			}
+		}
+		bad := map[string][]string{}
+		sites := 0
+		ast.Inspect(fi.Decl.Body, func(n ast.Node) bool {
+			call, ok := n.(*ast.CallExpr)
+			if !ok {
+				return true
+			}
+			sel, ok := call.Fun.(*ast.SelectorExpr)
+			if !ok {
+				return true
+			}
+			callee, _ := info.Uses[sel.Sel].(*types.Func)
+			if callee == nil {
+				return true
+			}
+			sig := callee.Type().(*types.Signature)
+			if sig.Recv() == nil {
+				return true
+			}
+			var operands []ast.Expr
+			rs := namedStructName(sig.Recv().Type())
+			switch {
+			case fam.structs[rs] && (fam.isPrinter(callee) || callee.Name() == "String"):
+				operands = append(operands, sel.X)
+			case isBuilderType(sig.Recv().Type()) && strings.HasPrefix(callee.Name(), "Write"), isQuickTemplateWriter(sig.Recv().Type()):
+				operands = append(operands, call.Args...)
+			default:
+				return true
+			}
+			sites++
+			for _, op := range operands {
+				ast.Inspect(op, func(m ast.Node) bool {
+					e, ok := m.(ast.Expr)
+					if !ok {
+						return true
+					}
+					switch e.(type) {
+					case *ast.SelectorExpr, *ast.IndexExpr:
+						out := map[string]string{}
+						through(e, true, out)
+						for s, p := range out {
+							bad[s] = append(bad[s], fmt.Sprintf("%s (via %s, line %d)", types.ExprString(e), p, a.r.co.Fset.Position(e.Pos()).Line))
+						}
+						return false
+					}
+					return true
+				})
+			}
+			return true
+		})
+		if sites == 0 {
+			continue
+		}
+		if len(bad) == 0 {
+			c.Ob(rule, fi.Name(), true, posStr(a.r.co.Fset, fi.Decl.Pos()), fmt.Sprintf("%d print sites; no operand reaches into a node that has its own printer", sites))
+			continue
+		}
+		for _, s := range sortedKeys(bad) {
+			sort.Strings(bad[s])
+			c.Ob(rule, fi.Name()+"/"+s, false, posStr(a.r.co.Fset, fi.Decl.Pos()), fmt.Sprintf("prints a part of a %s instead of handing the %s to its own printer %s: %s — whatever else %s prints (name, markers) is lost for this value", s, s, own[s], strings.Join(bad[s], "; "), own[s]))
+		}
+	}
+}
+
+func isBuilderType(t types.Type) bool {
+	if p, ok := t.(*types.Pointer); ok {
+		t = p.Elem()
+	}
+	n, ok := types.Unalias(t).(*types.Named)
+	return ok && n.Obj().Pkg() != nil && (n.Obj().Pkg().Path() == "strings" && n.Obj().Name() == "Builder" || n.Obj().Pkg().Path() == "bytes" && n.Obj().Name() == "Buffer")
+}
+
+// tl2SingleVariantUnionKeepsBar: the TL2 parser reads `= A x:int` as a structure and `= | A x:int` as a union with one
+// variant, so the formatter must write the bar for a union with one variant. In every loop of the formatter over a
+// []TL2UnionConstructor the text with the bar is written either unconditionally, or — where it is written under a test of
+// the loop index (a separator) — also under a test of the number of variants.
+func tl2SingleVariantUnionKeepsBar(c *Check, a *astCoverage) {
+	const rule = "tl2-printer/single-variant-union-keeps-bar"
+	for _, name := range sortedKeys(a.r.funcs) {
+		fi := a.r.funcs[name]
+		if fi.Decl.Body == nil || !strings.HasPrefix(name, "internal/tlast.") {
+			continue
+		}
+		if file := filepath.Base(a.r.co.Fset.Position(fi.Decl.Pos()).Filename); !tl2Family.printerFiles[file] {
+			continue
+		}
+		info := fi.Pkg.TypesInfo
+		isVariants := func(e ast.Expr) bool {
+			t := info.TypeOf(e)
+			if t == nil {
+				return false
+			}
+			sl, ok := t.Underlying().(*types.Slice)
+			return ok && namedStructName(sl.Elem()) == "TL2UnionConstructor"
+		}
+		// locals: every value assigned to them in this function
+		assigned := map[types.Object][]ast.Expr{}
+		ast.Inspect(fi.Decl.Body, func(n ast.Node) bool {
+			switch n := n.(type) {
+			case *ast.AssignStmt:
+				if len(n.Lhs) == len(n.Rhs) {
+					for i, l := range n.Lhs {
+						if id, ok := l.(*ast.Ident); ok {
+							if o := info.ObjectOf(id); o != nil {
+								assigned[o] = append(assigned[o], n.Rhs[i])
+							}
+						}
+					}
+				}
+			case *ast.ValueSpec:
+				for i, id := range n.Names {
+					if i < len(n.Values) {
+						assigned[info.ObjectOf(id)] = append(assigned[info.ObjectOf(id)], n.Values[i])
+					}
+				}
+			}
+			return true
+		})
+		var hasBar func(e ast.Expr, depth int) bool
+		hasBar = func(e ast.Expr, depth int) bool {
+			found := false
+			ast.Inspect(e, func(n ast.Node) bool {
+				switch n := n.(type) {
+				case *ast.BasicLit:
+					if n.Kind == token.STRING && strings.Contains(n.Value, "|") {
+						found = true
+					}
+				case *ast.Ident:
+					if o := info.Uses[n]; o != nil && depth < 3 {
+						if cv, ok := o.(*types.Const); ok && cv.Val().Kind() == constant.String && strings.Contains(constant.StringVal(cv.Val()), "|") {
+							found = true
+						}
+						vals := assigned[o]
+						all := len(vals) > 0
+						for _, v := range vals {
+							if !hasBar(v, depth+1) {
+								all = false
+							}
+						}
+						if all {
+							found = true
+						}
+					}
+				}
+				return !found
+			})
+			return found
+		}
+		emitsBar := func(n ast.Node) bool {
+			found := false
+			ast.Inspect(n, func(m ast.Node) bool {
+				call, ok := m.(*ast.CallExpr)
+				if !ok {
+					return true
+				}
+				sel, ok := call.Fun.(*ast.SelectorExpr)
+				if !ok {
+					return true
+				}
+				callee, _ := info.Uses[sel.Sel].(*types.Func)
+				if callee == nil || callee.Type().(*types.Signature).Recv() == nil || !isBuilderType(callee.Type().(*types.Signature).Recv().Type()) {
+					return true
+				}
+				for _, arg := range call.Args {
+					if hasBar(arg, 0) {
+						found = true
+					}
+				}
+				return true
+			})
+			return found
+		}
+		var mentionsCount func(e ast.Expr, depth int) bool
+		mentionsCount = func(e ast.Expr, depth int) bool {
+			found := false
+			ast.Inspect(e, func(n ast.Node) bool {
+				switch n := n.(type) {
+				case *ast.CallExpr:
+					if id, ok := n.Fun.(*ast.Ident); ok && id.Name == "len" && len(n.Args) == 1 && isVariants(n.Args[0]) {
+						found = true
+					}
+				case *ast.Ident:
+					if o := info.Uses[n]; o != nil && depth < 3 {
+						for _, v := range assigned[o] {
+							if mentionsCount(v, depth+1) {
+								found = true
+							}
+						}
+					}
+				}
+				return !found
+			})
+			return found
+		}
+		ast.Inspect(fi.Decl.Body, func(n ast.Node) bool {
+			rs, ok := n.(*ast.RangeStmt)
+			if !ok || !isVariants(rs.X) {
+				return true
+			}
+			var key types.Object
+			if id, ok := rs.Key.(*ast.Ident); ok && id.Name != "_" {
+				key = info.Defs[id]
+			}
+			uncond, sepIf, counted := false, false, false
+			var walkIf func(st *ast.IfStmt)
+			walkIf = func(st *ast.IfStmt) {
+				mentionsKey := false
+				ast.Inspect(st.Cond, func(m ast.Node) bool {
+					if id, ok := m.(*ast.Ident); ok && key != nil && info.Uses[id] == key {
+						mentionsKey = true
+					}
+					return true
+				})
+				if emitsBar(st.Body) {
+					if mentionsKey {
+						sepIf = true
+					}
+					if mentionsCount(st.Cond, 0) {
+						counted = true
+					}
+				}
+				switch e := st.Else.(type) {
+				case *ast.IfStmt:
+					walkIf(e)
+				case *ast.BlockStmt:
+					for _, s := range e.List {
+						if is, ok := s.(*ast.IfStmt); ok {
+							walkIf(is)
+						}
+					}
+				}
+			}
+			for _, st := range rs.Body.List {
+				switch st := st.(type) {
+				case *ast.IfStmt:
+					walkIf(st)
+				case *ast.ExprStmt:
+					if emitsBar(st) {
+						uncond = true
+					}
+				}
+			}
+			if !uncond && !sepIf && !counted {
+				return true // this loop does not print the bars (it inspects the variants)
+			}
+			ok2 := uncond || counted
+			c.Ob(rule, fi.Name(), ok2, posStr(a.r.co.Fset, rs.Pos()), fmt.Sprintf("loop over the variants: bar written unconditionally=%v, as a separator under a test of the loop index=%v, under a test of the number of variants=%v — with only the separator a union with one variant is printed without its bar and parses back as a structure (or not at all)", uncond, sepIf, counted))
+			return true
+		})
+	}
+	c.Floor(rule, 1)
+}
+
+func isQuickTemplateWriter(t types.Type) bool {
+	if p, ok := t.(*types.Pointer); ok {
+		t = p.Elem()
+	}
+	n, ok := types.Unalias(t).(*types.Named)
+	return ok && n.Obj().Pkg() != nil && strings.HasSuffix(n.Obj().Pkg().Path(), "valyala/quicktemplate") && n.Obj().Name() == "QWriter"
 }
